@@ -71,8 +71,9 @@ def leaf_name(k):
 class Linearizer:
     """expression tree (from Chaser) -> Lin"""
 
-    def __init__(self, body, chaser=None):
+    def __init__(self, body, chaser=None, prog=None):
         self.body = body
+        self.prog = prog
         self.ch = chaser or Chaser(body)
         self._mut = None
         self.intrinsic = {}
@@ -112,11 +113,21 @@ class Linearizer:
             deps = {("L", x[1])} if x[0] == "local" else set()
             return Lin(0, {("len", ("L", x[1], x[2])): 1}, deps)
         if x[0] == "field":
-            from .expr import field_path
+            from .expr import field_path, walk
+            n = self.field_array_len(x)
+            if n is not None:
+                return Lin(n)
             fp = field_path(x)
+            deps = {("L", y[1]) for y in walk(x) if y[0] == "local"} | {("C", y[3]) for y in walk(x) if y[0] == "call"}
             if fp:
-                deps = {("L", y[1]) for y in __import__("analysis.expr", fromlist=["walk"]).walk(x) if y[0] == "local"}
-                return Lin(0, {("len", ("L", -1, fp)): 1}, deps)
+                # two locals may share a name (shadowing): the root's index is part of the atom
+                root = [y for y in walk(x) if y[0] in ("param", "local")]
+                rid = root[0][1] if len(root) == 1 else -1
+                return Lin(0, {("len", ("L", -1, "%s#%d" % (fp, rid))): 1}, deps)
+            # a field of a computed value (e.g. the element an iterator yielded): an atom keyed like any opaque value
+            o = self.opaque(x)
+            (k, _), = o.t.items()
+            return Lin(0, {("len", k): 1}, o.deps)
         if x[0] == "call" and x[1] in ("std::ops::Index::index", "std::ops::IndexMut::index_mut") and len(x[2]) == 2:
             base, idx = x[2]
             r = range_of(idx)
@@ -143,6 +154,22 @@ class Linearizer:
             return Lin(len(x[2]))
         if x[0] == "repeat" and isinstance(x[2], int):
             return Lin(x[2])
+        return None
+
+    def field_array_len(self, x):
+        """N when the field expression has type [T; N] (looked up in the ADT table of the program, if one was given)"""
+        if self.prog is None or x[0] != "field":
+            return None
+        a = self.prog.adts.get(x[2])
+        u = self.prog.adt_unit.get(x[2])
+        if not a or u is None:
+            return None
+        for v in a.get("variants", []):
+            for f in v.get("fields", []):
+                if f.get("name") == x[3] and isinstance(f.get("ty"), int):
+                    ty = u.types[f["ty"]]
+                    if ty["k"] == "array":
+                        return ty.get("n")
         return None
 
     def lin(self, e):
